@@ -341,7 +341,7 @@ End CoreConditions.
 
 (* D4 (well-formed arguments) and D2 (restrictions under fan-out), operator by
    operator.  An operator not listed here is outside the covered domain. *)
-Fixpoint core_op (x : value) (op : string) (root : value) (p : path) {struct x} : bool :=
+Fixpoint core_op (full : bool) (x : value) (op : string) (root : value) (p : path) {struct x} : bool :=
   let fan := fans_out root p in
   if is_rel_op op || String.eqb op "$ne" then negb fan || plain_scalar x
   else if String.eqb op "$in" || String.eqb op "$nin" then
@@ -371,6 +371,7 @@ Fixpoint core_op (x : value) (op : string) (root : value) (p : path) {struct x} 
   else if String.eqb op "$all" then
     (* array operands are outside the domain: lungo requires all operands to
        be elements, or all to equal the field (all_mixed_refuted) *)
+    full &&
     match x with
     | VArr vs => negb fan && forallb (fun v => match v with VArr _ => false | _ => true end) vs
     | _ => false
@@ -387,12 +388,12 @@ Fixpoint core_op (x : value) (op : string) (root : value) (p : path) {struct x} 
         (fix go (exps : list (string * value)) : bool :=
            match exps with
            | [] => true
-           | (k, y) :: t => is_op k && core_op y k root p && go t
+           | (k, y) :: t => is_op k && core_op full y k root p && go t
            end) exps
     | _ => false
     end
   else if String.eqb op "$elemMatch" then
-    negb fan &&
+    full && negb fan &&
     match x with
     | VDoc [] => false
     | VDoc q =>
@@ -406,8 +407,8 @@ Fixpoint core_op (x : value) (op : string) (root : value) (p : path) {struct x} 
                          match q with
                          | [] => true
                          | (k, y) :: t =>
-                             (if is_op k then core_op y k e []
-                              else core_field core_op y e (split_path k)) && go t
+                             (if is_op k then core_op full y k e []
+                              else core_field (core_op full) y e (split_path k)) && go t
                          end) q) es
              | _ => true
              end) (rlookup root p)
@@ -415,7 +416,7 @@ Fixpoint core_op (x : value) (op : string) (root : value) (p : path) {struct x} 
     end
   else false.
 
-Fixpoint core_top (x : value) (k : string) (root : value) {struct x} : bool :=
+Fixpoint core_top (full : bool) (x : value) (k : string) (root : value) {struct x} : bool :=
   if is_op k then
     let sub (item : value) : bool :=
       match item with
@@ -423,7 +424,7 @@ Fixpoint core_top (x : value) (k : string) (root : value) {struct x} : bool :=
           (fix go (q : list (string * value)) : bool :=
              match q with
              | [] => true
-             | (k', y) :: t => core_top y k' root && go t
+             | (k', y) :: t => core_top full y k' root && go t
              end) q
       | _ => false
       end in
@@ -435,16 +436,21 @@ Fixpoint core_top (x : value) (k : string) (root : value) {struct x} : bool :=
            match l with [] => true | i :: t => sub i && all t end) items
     | _ => false
     end
-  else core_field core_op x root (split_path k).
+  else core_field (core_op full) x root (split_path k).
 
-Definition core_filter (root : value) (f : doc) : bool :=
+Definition core_filter (full : bool) (root : value) (f : doc) : bool :=
   (fix go (q : list (string * value)) : bool :=
      match q with
      | [] => true
-     | (k, y) :: t => core_top y k root && go t
+     | (k, y) :: t => core_top full y k root && go t
      end) f.
 
-Definition coreb (d f : doc) : bool :=
-  d1 (VDoc d) && d3 (VDoc d) && core_filter (VDoc d) f.
+(* full = true: the whole core domain (every operator except $jsonSchema);
+   full = false: the part covered by the proof match_ref_partial (no $all,
+   no $elemMatch) *)
+Definition coreb_gen (full : bool) (d f : doc) : bool :=
+  d1 (VDoc d) && d3 (VDoc d) && core_filter full (VDoc d) f.
 
+Definition coreb (d f : doc) : bool := coreb_gen true d f.
 Definition core (d f : doc) : Prop := coreb d f = true.
+Definition core_covered (d f : doc) : Prop := coreb_gen false d f = true.
